@@ -606,11 +606,6 @@ func drawRestStep(t *rapid.T) restStep {
 }
 
 func TestC18_Endpoints(t *testing.T) {
-	defer func() {
-		if srv != nil && srv.cmd.Process != nil {
-			srv.cmd.Process.Kill()
-		}
-	}()
 	c18Main.rapid(t, ev.Pick(600, 12_000), func(t *rapid.T) c18Case {
 		n := rapid.IntRange(1, 12).Draw(t, "n")
 		c := c18Case{Conc: rapid.SampledFrom([]int{1, 1, 2, 4, 8}).Draw(t, "conc")}
